@@ -106,7 +106,9 @@ CLAIMED = {
         "__eq__/clone_item iterate over are regenerated from the source and compared with the model's by "
         "`decide`. Model tied to the code by differential runs of __eq__, clone_item and __str__.",
         NOTE_COMMON + "Finite Decimals only, 20 concrete classes.", "5 C09"),
-    "C10": ("Lean 4 proof (resolve = relabel, no unknown left, lucene skeleton, idempotence, meaning)" + T_CORR,
+    "C10": ("Lean 4 proof (resolve = relabel, no unknown left, lucene skeleton, idempotence, meaning) + the resolver's visit "
+            "methods for the explicit targets and the default copy translated from the source by symbolic execution "
+            "(tools/pysym.py; Props/GenVisit: relabel is the fixed point of the translated steps)" + T_CORR,
             "Theorems: for explicit targets resolve = the structural relabelling; no implicit operation is left for all four "
             "targets; Lucene mode changes only operation kinds (all AND without explicit operator); idempotence; boolean "
             "meaning preserved (evalB) under leavesResolved; layout changes only by add_head on later operands.",
@@ -125,13 +127,17 @@ CLAIMED = {
             "(C10.resolve_meaning). Every hypothesis is decidable and refuted on its witness (KF6 'a OR b c', KF7 'a(b)', "
             "KF12 '>1 AND a~2AND <5 3', empty add_head, KF1/KF8 'T12 :30') by decide +kernel.",
             NOTE_COMMON + "Transformers are hand-modelled (Model/Transform.lean); KF12 has only the result-level hypothesis.", "5 C11"),
-    "C12": ("Lean 4 proof (conversion spec, no comparison left, mergeOps preserves the conjunction over any order)" + T_CORR,
+    "C12": ("Lean 4 proof (conversion spec, no comparison left, mergeOps preserves the conjunction over any order) + "
+            "visit_from / visit_to / _visit_from_to and the non-merging visit_and_operation translated from the source by "
+            "symbolic execution (tools/pysym.py; Props/GenVisitAht: openrange_is_generated)" + T_CORR,
             "Theorems: openRange without merging is the plain conversion; no From/To remains; mergeOps_conj: for every value "
             "the conjunction of the merged operands holds iff that of the original ones (any LE/LT structure); operands "
             "without bound side survive in order; without AND nodes merging changes nothing.",
             NOTE_COMMON, "5 C12"),
     "C13": ("Lean 4 proof (aht eqv, layout, idempotence, failure characterisation; round trip = re-lexing theory LX + parser "
-            "completeness C03c + print-and-reparse theorem)" + T_CORR,
+            "completeness C03c + print-and-reparse theorem) + the four visit methods of AutoHeadTail with add_head / add_tail "
+            "translated from the source by symbolic execution (tools/pysym.py; Props/GenVisitAht: aht_is_generated), "
+            "__str__ of every class (Props/GenPrint)" + T_CORR,
             "Theorems: auto_head_tail returns an eqv tree, changes only empty heads/tails into '' or ' ', is idempotent, fails "
             "exactly on operations without operands; aht_roundtrip_partial / aht_roundtrip_partial_layout: for every tree with "
             "no (or only blank) layout that is expressible (canonical w.r.t. precedence, texts that lex as single tokens, "
@@ -177,7 +183,7 @@ CLAIMED = {
     "C19": ('Lean 4 proof (walk enumerates every field once; not-analysed iff; registered nested prefixes; end-to-end clause for the dotted spelling) + correspondence + per-leaf oracle on random mappings with analyzer call histories',
             'Theorems: walk_enumerates, notAnalyzed_iff, nestedPrefixes_iff (a nested node is registered iff it has a child that is not itself a registered container: KF5/KF11 made precise), build_schema_field / build_nested_path / build_no_nested_path (the dotted query of a mapped field gives a clause on the full path, term-level iff not analysed, nested on the innermost REGISTERED nested prefix). Correspondence and oracle over random mappings, both spellings, equivalent spec spellings.',
             NOTE_COMMON + 'Group spelling, phrases/ranges and document-type level are covered by the correspondence only.', "5 C19"),
-    "C20": ('Lean 4 proof (call_iff_wf: accepted iff well-formed; defect found in every context) + translator (method table, 20 decide lemmas) + correspondence + defect-injection oracle',
+    "C20": ('Lean 4 proof (call_iff_wf: accepted iff well-formed; defect found in every context) + translator (method table, 20 decide lemmas; LuceneCheck.check with its dispatch, the _check_children decorator and every check_* method translated from the source by symbolic execution, tools/pysym.py; Props/GenCheck: the model\'s checkErrors is the fixed point of the translated steps) + correspondence + defect-injection oracle',
             'Theorems: call_iff_no_error, checkErrors_nil_iff / call_iff_wf (the checker accepts exactly the trees of the class WF), defect_found / defect_rejected (each defect kind at the hole of any context built from operations, groups, field groups, fields, boosts, prefixes is reported), total. 20 method_* lemmas tie the generated check_* table to the model.',
             NOTE_COMMON + 'Regex, From/To, NoneItem have no check method (reported as unknown item): outside WF, as the model shows.', "5 C20"),
 }
